@@ -59,7 +59,7 @@ PROPS["C11"] = {
                     "parent_path of a path with a trailing separator / with a double slash away from the split point, and "
                     "path_file_name of a path without separator, are documented ambiguously: every documented reading is accepted"],
     "required_classes": ["pair-exh:match-at-very-end", "pair-exh:empty-needle", "pair-exh:needle-longer", "pair-rand:match-at-very-end", "path-exh:parent-is-root",
-                         "pair-prefix:equal-operands-of-7-bytes-or-more", "pair-prefix:common-prefix-of-8-bytes-or-more", "prefix-exh:equal-operands-of-7-bytes-or-more"],
+                         "pair-prefix:equal-operands-of-7-bytes-or-more", "pair-prefix:common-prefix-of-8-bytes-or-more", "prefix-exh:equal-operands-of-7-bytes-or-more", "pair-exh:empty-operand-made-by-from_format"],
 }
 
 
